@@ -38,10 +38,8 @@ Fixpoint levels_wf (o:obj) : bool :=
 (* the tie-break branch is reached for this source and is outside the exactness guard *)
 Definition inexact (home:option str) (targets:list str) (levels:list Z) (s:str) : bool :=
   let scores := map (get_path_score home s) targets in
-  match zmax scores with
-  | Some m => negb (m =? 0)%Z && (1 <? zcount m scores)%nat && negb (tiebreak_exact scores levels)
-  | None => false
-  end.
+  let m := zmax_default0 scores in
+  negb (m =? 0)%Z && (1 <? zcount m scores)%nat && negb (tiebreak_exact scores levels m).
 
 Definition sx_ending (e:ending) : sx :=
   match e with
@@ -60,7 +58,7 @@ Definition run_decide (x:sx) : sx :=
       | Some home, Some master, Some sources =>
           if negb (levels_wf master) then SL [SA (s_ "unmodelled")]
           else
-            match all_definitions master with
+            match target_locators master with
             | Ok locs =>
                 let targets := map lpath locs in
                 let levels := map recursive_expert_level locs in
